@@ -396,12 +396,20 @@ def check_name_limits(ctx, w: World):
     ctx.check(k == "raised", "name-evaluated/label-length-limit", q + " | <label longer than 63 bytes>",
               "Name(b'a'*64 + b'.com').encode() writes the length byte 0x40 and a 200-byte label writes 0xc8: the two top bits of that byte mean "
               "'compression pointer' to every reader, so the name is not refused and does not decode to itself (labels are limited to 63 bytes)")
+    # a name first written beyond offset 0x3FFF must not be referred to by a pointer later on (the pointer has 14 bits)
     buf = io.BytesIO()
-    comp = {b"example.org": 0x4001}
+    buf.write(b"\x00" * 0x3FF0)
+    comp: Dict[bytes, int] = {}
     k, r = w.run("Name.encode", lambda: ev.method(w.name(b"www.example.org"), "encode", [buf, comp]))
-    out = buf.getvalue()
-    mis = k == "value" and out.endswith(struct.pack(">H", 0xC000 | 0x4001)) or (k == "value" and len(out) >= 2 and out[-2] & 0xC0 == 0xC0 and out[-1] != 0 and ((out[-2] & 0x3F) << 8 | out[-1]) != 0x4001 and not out.endswith(b"\x03org\x00"))
-    ctx.check(not mis, "name-evaluated/pointer-offset-limit", q + " | <compression pointer to an offset >= 0x4000>",
+    first_end = buf.tell()
+    k2, r2 = w.run("Name.encode", lambda: ev.method(w.name(b"ftp.example.org"), "encode", [buf, comp]))
+    second = buf.getvalue()[first_end:]
+    true_off = 0x3FF0 + 12 + 4          # where "example.org" really starts in the message
+    mis = False
+    if k == "value" and k2 == "value" and len(second) >= 2 and second[-2] & 0xC0 == 0xC0 and not second.endswith(b"\x03org\x00"):
+        mis = ((second[-2] & 0x3F) << 8 | second[-1]) != true_off
+    ctx.check(k == "value" and k2 == "value" and not mis and (second.endswith(b"\x03org\x00") or not mis), "name-evaluated/pointer-offset-limit",
+              q + " | <compression pointer to an offset >= 0x4000>",
               "a name that was first written at offset >= 0x4000 is referenced with 0xC000 | offset, which a reader decodes as offset & 0x3FFF: "
               "in a 26 KiB message the last owner name decodes to bytes from the middle of another record")
     # pointers and offsets are relative to the start of the message
@@ -766,8 +774,41 @@ def check_name_bounds_static(ctx, mod, consts):
         ctx.check(all(bounded_above(m, o, 63) for m, o in len_sites), "name/label-length-limit", q + " | <label longer than 63 bytes>",
                   "Name(b'a'*64 + b'.com').encode() writes the length byte 0x40 and a 200-byte label writes 0xc8: the two top bits of that byte mean "
                   "'compression pointer' to every reader, so the name is not refused and does not decode to itself (labels are limited to 63 bytes)")
+    def stores_bounded(operand) -> bool:
+        """the pointer operand is D[key] and every offset ever stored into D (by this module) is stored under a guard bounding it by 0x3FFF"""
+        op = expand(operand, defs)
+        if not (isinstance(op, ast.Subscript) and isinstance(op.value, ast.Name)):
+            return False
+        dname = op.value.id
+        found = False
+        for qn, fn in mod.functions():
+            if not any(isinstance(x, ast.Subscript) and isinstance(x.ctx, ast.Store) and isinstance(x.value, ast.Name) and x.value.id == dname for x in ast.walk(fn)):
+                continue
+            gg = ctx.cfg(fn) if fn is not f else g
+            fdefs = single_defs(fn)
+            for m in gg.ids(lambda n: n.kind == "stmt" and isinstance(n.ast, ast.Assign) and any(isinstance(t, ast.Subscript) and isinstance(t.value, ast.Name) and t.value.id == dname
+                                                                                                for t in n.ast.targets)):
+                found = True
+                val = gg.node(m).ast.value
+                terms_ok = {src(val), src(expand(val, fdefs))}
+                ok_here = False
+                for t, lab in gg.edge_guards(m):
+                    fm = lincmp(expand(gg.node(t).ast, fdefs), consts, negate=(lab == "F"))
+                    if fm is None:
+                        continue
+                    # -(offset expression) >= -c  with c <= 0x3FFF, the offset expression possibly a sum of several terms
+                    if all(cf < 0 for _, cf in fm[0]) and -fm[1] <= 0x3FFF:
+                        lhs = lincmp(ast.Compare(left=expand(val, fdefs), ops=[ast.GtE()], comparators=[ast.Constant(value=0)]), consts)
+                        if lhs is not None and frozenset((k_, -v_) for k_, v_ in lhs[0]) == fm[0]:
+                            ok_here = True
+                        if len(fm[0]) == 1 and next(iter(fm[0]))[0] in terms_ok:
+                            ok_here = True
+                if not ok_here:
+                    return False
+        return found
+
     for n, operand in ptr_sites[:1]:
-        ctx.check(all(bounded_above(m, o, 0x3FFF) for m, o in ptr_sites), "name/pointer-offset-limit", q + " | <compression pointer to an offset >= 0x4000>",
+        ctx.check(all(bounded_above(m, o, 0x3FFF) or stores_bounded(o) for m, o in ptr_sites), "name/pointer-offset-limit", q + " | <compression pointer to an offset >= 0x4000>",
                   "a name that was first written at offset >= 0x4000 is referenced with 0xC000 | offset, which a reader decodes as offset & 0x3FFF: "
                   "in a 26 KiB message the last owner name decodes to bytes from the middle of another record")
 
